@@ -1,7 +1,7 @@
 """X01 - behaviour beyond the listed properties (not registered in MANIFEST.json; informational).
 
 Latch and transition operators of kyupy.logic in both storage formats against Logic.Latch8 / Logic.Transition on every
-operand tuple.  Differences are printed as EXTRA lines; the exit code is always 0 unless the machinery fails.
+operand tuple; the 4-/8-valued state transfer between clock cycles.  Differences are printed as EXTRA lines; the exit code is always 0 unless the machinery fails.
 """
 import itertools
 
@@ -24,6 +24,25 @@ def main(tier=None, replay=None):
         recs.append(dict(fn='bp8v_latch', ins=[d, t, q], res=int(logic.bp_to_mv(out)[0, 0])))
     for i, f in itertools.product(range(8), repeat=2):
         recs.append(dict(fn='mv_transition', ins=[i, f], res=int(logic.mv_transition(np.array([i], dtype=np.uint8), np.array([f], dtype=np.uint8))[0])))
+    # state transfer between clock cycles in 4- and 8-valued mode (LogicSim.s_ppo_to_ppi): per state element the new
+    # assignment as a function of (old assignment, captured value)
+    from kyupy import bench
+    from kyupy.logic_sim import LogicSim
+    c = bench.parse('input(a) output(z) q=DFF(a) z=buf(q)')
+    k = [n.name for n in c.s_nodes].index('q')
+    for m, vals in ((4, range(4)), (8, range(8))):
+        pairs = list(itertools.product(vals, repeat=2))
+        sim = LogicSim(c, sims=len(pairs), m=m)
+        old = np.zeros((len(c.s_nodes), len(pairs)), dtype=np.uint8)
+        cap = np.zeros_like(old)
+        old[k] = [a for a, _ in pairs]
+        cap[k] = [b for _, b in pairs]
+        sim.s[0] = logic.mv_to_bp(old)
+        sim.s[1] = logic.mv_to_bp(cap)
+        sim.s_ppo_to_ppi()
+        new = logic.bp_to_mv(sim.s[0])[k, :len(pairs)] & (3 if m == 4 else 7)
+        for (a, b), v in zip(pairs, new):
+            recs.append(dict(fn='ppo_to_ppi%d' % m, ins=[a, b], res=int(v)))
     r = ck.tlc_batch('ExtrasT', 'ExtrasT', traces=recs, label='T:ExtrasT', per_shard=400)
     ck.require_clean(r)
     ck.traces += len(recs)
@@ -38,4 +57,4 @@ def main(tier=None, replay=None):
     ck.sample(recs[100])
     for x in recs:
         ck.nontrivial.add(str(x['fn']) + str(x['ins']))
-    return ck.finish('all 512 operand triples of the latch operators (array and bit-parallel form) and all 64 pairs of mv_transition')
+    return ck.finish('all 512 operand triples of the latch operators (array and bit-parallel form) and all 64 pairs of mv_transition; all (old assignment, captured value) pairs of the 4- and 8-valued state transfer')
